@@ -429,6 +429,7 @@ fn map_op<const N: usize>(m: &mut Map<Key, Val, N>, op: &[u64], o: &mut Out) {
                 if fate == 0 { counted(|| drop(d)); }
                 else if fate == 2 { let mut cnt = 0u64;
                     counted(|| d.for_each(|p| { call_tick(); cnt += 1; caller_drop(p); })); o.push(cnt); }
+                else if fate == 3 { let c = counted(|| d.count()); o.push(c as u64); }
                 else { leak_ok(); mem::forget(d); } }
         35 => { #[allow(deprecated)]
                 let fresh = Map::<Key, Val, N>::with_capacity(op[2] as usize);
@@ -605,6 +606,7 @@ fn into_session<const N: usize>(m: &mut Map<Key, Val, N>, kind: u64, take: u64, 
         if fate == 0 { counted(|| drop($it)); }
         else if fate == 2 { let mut cnt = 0u64;
             counted(|| $it.for_each(|p| { call_tick(); cnt += 1; caller_drop(p); })); o.push(cnt); }
+        else if fate == 3 { let c = counted(|| $it.count()); o.push(c as u64); }
         else { leak_ok(); mem::forget($it); }
     }}; }
     match kind {
@@ -719,6 +721,7 @@ fn set_op<const N: usize>(s: &mut Set<Key, N>, op: &[u64], o: &mut Out) {
                  if fate == 0 { counted(|| drop(d)); }
                  else if fate == 2 { let mut cnt = 0u64;
                      counted(|| d.for_each(|p| { call_tick(); cnt += 1; caller_drop(p); })); o.push(cnt); }
+                 else if fate == 3 { let c = counted(|| d.count()); o.push(c as u64); }
                  else { leak_ok(); mem::forget(d); } }
         135 => { let n = op[2] as usize;
                  let items: Vec<Key> = (0..n).map(|i| Key::new(op[3 + 2 * i], op[4 + 2 * i])).collect();
@@ -744,6 +747,7 @@ fn set_op<const N: usize>(s: &mut Set<Key, N>, op: &[u64], o: &mut Out) {
                  if fate == 0 { counted(|| drop(it)); }
                  else if fate == 2 { let mut cnt = 0u64;
                      counted(|| it.for_each(|p| { call_tick(); cnt += 1; caller_drop(p); })); o.push(cnt); }
+                 else if fate == 3 { let c = counted(|| it.count()); o.push(c as u64); }
                  else { leak_ok(); mem::forget(it); } }
         142 => { let (pre, nk) = (op[2], op[3] as usize);
                  let mut it = counted(|| s.iter());
@@ -1023,7 +1027,7 @@ fn step(w: &mut World, op: &[u64]) -> (Out, bool) {
     let t = match target(op) { Some(t) => t, None => return (vec![9], false) };
     if (op[0] == 60 || op[0] == 67) && w.m[op[1] as usize].cap() != w.m[op[2] as usize].cap() { return (vec![9], false); }
     if (op[0] == 160 || op[0] == 167) && w.s[op[1] as usize - 2].cap() != w.s[op[2] as usize - 2].cap() { return (vec![9], false); }
-    with_ctx(|c| { c.drops.clear(); c.clones.clear(); c.in_call = true; });
+    with_ctx(|c| { c.drops.clear(); c.clones.clear(); c.op_ids.clear(); c.in_call = true; });
     CLONE_WIN.with(|w| w.set((0, 0)));
     let mut body = Out::new();
     let res = catch_unwind(AssertUnwindSafe(|| do_op(w, op, &mut body)));
@@ -1032,7 +1036,12 @@ fn step(w: &mut World, op: &[u64]) -> (Out, bool) {
     let panicked = res.is_err();
     match res {
         Ok(()) => { out.push(1); out.extend(body); post(w, t, &mut out); events(&mut out); }
-        Err(_) => { out.push(2); post(w, t, &mut out); out.extend([8888, 8889]); }
+        Err(_) => { out.push(2); post(w, t, &mut out);
+            // what the crate destroyed while unwinding: the objects handed in with this very call are struck out
+            // (whether the crate or the caller's own frames destroyed them is not distinguished, see Exec.censor)
+            let (mut d, mut c) = with_ctx(|c| (c.drops.iter().copied().filter(|i| !c.op_ids.contains(i)).collect::<Vec<u64>>(), c.clones.clone()));
+            d.sort(); c.sort();
+            out.push(8888); out.extend(d); out.push(8889); out.extend(c); }
     }
     for (i, r) in w.m.iter().enumerate() { if !r.intact() { fault(format!("CANARY memory next to map register {} was overwritten", i)); } }
     for (i, r) in w.s.iter().enumerate() { if !r.intact() { fault(format!("CANARY memory next to set register {} was overwritten", i)); } }
@@ -1042,7 +1051,7 @@ fn step(w: &mut World, op: &[u64]) -> (Out, bool) {
 fn teardown(w: &mut World) -> Out {
     let mut out = Out::new();
     for i in 0..4 {
-        with_ctx(|c| { c.drops.clear(); c.clones.clear(); c.in_call = true; });
+        with_ctx(|c| { c.drops.clear(); c.clones.clear(); c.op_ids.clear(); c.in_call = true; });
         let res = if i < 2 {
             let cap = w.m[i].cap() as u64;
             let old = mem::replace(&mut w.m[i], mk_mreg(cap));
@@ -1056,7 +1065,7 @@ fn teardown(w: &mut World) -> Out {
         let t = if i < 2 { (false, i) } else { (true, i - 2) };
         match res {
             Ok(()) => { out.push(1); post(w, t, &mut out); events(&mut out); }
-            Err(_) => { out.push(2); post(w, t, &mut out); out.extend([8888, 8889]); }
+            Err(_) => { out.push(2); post(w, t, &mut out); events(&mut out); }
         }
     }
     with_ctx(|c| { out.extend([8890, c.n_eq, c.n_clone, c.n_call, c.next_id]); });
